@@ -91,6 +91,17 @@ def oracle(cases):
                 if ev not in (0, 1, 2) and not ended:
                     fails.append(("connect-not-ended-by-readiness-event", "%s: still pending after %s: `%s`" % (describe(c), EVNAME.get(ev), obs), c))
                     break
+                if ev not in (0, 1, 2, 3):
+                    # the result is what SO_ERROR says: (0, 0) -> the stream, anything else -> an error and the stream is closed later
+                    good = tok.split(":")[1] == "k0"
+                    if good != obs.startswith("self:ok:own") or (not good and not (obs.startswith("self:err:") and "toclose=1" in obs)):
+                        fails.append(("connect-result-not-so-error", "%s: getsockopt(SO_ERROR) answered %s at %s but the operation reported `%s` "
+                                      "(expected %s)" % (describe(c), tok.split(":")[1], EVNAME.get(ev), obs,
+                                                         "the stream" if good else "an error, with the stream marked for closing"), c))
+                        break
+                if ev == 3 and not obs.startswith('self:err:"stream_closed"'):
+                    fails.append(("connect-close-not-raised", "%s: CLOSE must raise \"stream closed\": `%s`" % (describe(c), obs), c))
+                    break
         else:
             for tok, obs in c["ev"]:
                 ev, ans = int(tok.split(":")[0]), tok.split(":")[1]
